@@ -125,6 +125,16 @@ type ChunkReader struct {
 	Reset bool
 	// EOFWithData lets the explorer hand over the final bytes together with io.EOF.
 	EOFWithData bool
+	// FinalErr, when set, ends the input instead of io.EOF (a device that is
+	// unplugged, a connection that is reset).
+	FinalErr error
+}
+
+func (r *ChunkReader) end() error {
+	if r.FinalErr != nil {
+		return r.FinalErr
+	}
+	return io.EOF
 }
 
 func (r *ChunkReader) Read(p []byte) (int, error) {
@@ -133,7 +143,7 @@ func (r *ChunkReader) Read(p []byte) (int, error) {
 		mcrt.ResetLocal(uint64(r.Pos) + 1)
 	}
 	if r.Pos >= len(r.Data) {
-		return 0, io.EOF
+		return 0, r.end()
 	}
 	left := len(r.Data) - r.Pos
 	n := left
@@ -156,7 +166,7 @@ func (r *ChunkReader) Read(p []byte) (int, error) {
 	// io.Reader allows the last data and io.EOF to come from the same call
 	// (HTTP bodies, decompressors, pipes do it); that answer is one deviation
 	if r.Pos == len(r.Data) && r.EOFWithData && mcrt.Choose(2, "eof-with-last-data") == 1 {
-		return n, io.EOF
+		return n, r.end()
 	}
 	return n, nil
 }
